@@ -136,7 +136,7 @@ func decStmts(body []ast.Stmt, where string) []string {
 							}
 						}
 						if !mentionsMaps(t) {
-							out = append(out, fmt.Sprintf("NSet %s", qlist(lp)))
+							out = append(out, fmt.Sprintf("NSet %s (%s)", qlist(lp), vsrcOf(r)))
 							continue
 						}
 					}
@@ -297,4 +297,31 @@ func genDecNode() {
 	b.WriteString("].\n\n")
 	fmt.Fprintf(&b, "Definition dec_frame_ok : bool := %v.\n", frame)
 	writeIfChanged("DecTbl.v", b.String())
+}
+
+// vsrcOf classifies the right-hand side of a value assignment of the decorator.
+func vsrcOf(r ast.Expr) string {
+	if p, ok := cpathOf(r, "n"); ok {
+		return "VCopy " + qlist(p)
+	}
+	if id, ok := r.(*ast.Ident); ok && (id.Name == "true" || id.Name == "false") {
+		return "VConst " + q(id.Name)
+	}
+	if c, ok := r.(*ast.CallExpr); ok {
+		// n.P.IsValid()
+		if se, ok := c.Fun.(*ast.SelectorExpr); ok && se.Sel.Name == "IsValid" && len(c.Args) == 0 {
+			if p, ok := cpathOf(se.X, "n"); ok {
+				return "VValid " + qlist(p)
+			}
+		}
+		// a conversion dst.T(n.P)
+		if se, ok := c.Fun.(*ast.SelectorExpr); ok && len(c.Args) == 1 {
+			if x, ok := se.X.(*ast.Ident); ok && x.Name == "dst" {
+				if p, ok := cpathOf(c.Args[0], "n"); ok {
+					return "VCopy " + qlist(p)
+				}
+			}
+		}
+	}
+	return "VExpr " + q(src(r))
 }
